@@ -110,15 +110,15 @@ def concurrent_scenario(order):
 
 def timeout_scenario():
     """C16: an unanswered call times out alone; a late response to it disturbs nobody."""
-    return {"name": "timeout_isolated", "prop": "C16", "cfg": {"auto_ready": 1, "request_timeout_ms": 1200}, "steps": [
+    return {"name": "timeout_isolated", "prop": "C16", "cfg": {"auto_ready": 1, "request_timeout_ms": 2500}, "steps": [
         (["run"], [0]),
         (["srv_accept", 0, 3000], [0, 1, 1]),
         (["srv_collect", 1, 3000, 0], [0, 1, READY, 1]),
         (["call", 5, 30], [0, 0]),
-        (["sleep", 600], [0]),
+        (["sleep", 2000], [0]),                                # the second call has ~2 s left when the first times out
         (["call", 4, 2], [0, 1]),
         (["srv_collect", 2, 3000, 1], [0, 2, 4, 2, 5, 30]),
-        (["await", 0, 3000], [0, 4]),
+        (["await", 0, 5000], [0, 4]),
         (["srv_send", "headers", 30, 1], [0]),                # late response to the timed-out call
         (["srv_send", "basetx", 2], [0]),
         (["await", 1, 2000], [0, 0, 2]),
@@ -143,6 +143,10 @@ def scenarios(prop, tier, rng):
 
 def evaluate(prop, tier, rng, workdir):
     scs = scenarios(prop, tier, rng)
+    for s in scs:
+        # "handled" waits for the number of callbacks the scenario expects (robust on a loaded machine)
+        s["steps"] = [((o + [(len(w) - 1) // 2] if o[0] == "handled" and len(o) == 2 and w and len(w) > 2 else o), w)
+                      for o, w in s["steps"]]
     cases = [{"cfg": s["cfg"], "ops": [st[0] for st in s["steps"]]} for s in scs]
     results, _ = vlib.run_harness("clientnet", cases, workdir, tag="clientnet", timeout=900)
     failures = []
